@@ -132,3 +132,23 @@ def inlined_into(repo: Repo, mod: Module, qual: str, hosts) -> bool:
         if any(call_name(x3).split(".")[-1] == qual.split(".")[-1] for x3 in calls_in(repo.func(k[0], k[1]))):
             return False
     return True
+
+
+def acl_scratch_write(repo: Repo, wn: ast.AST) -> bool:
+    """is the primitive write `wn` the one exempt scratch store of ACL matching, <rule>['attrs']['match'] = ... ?  The base is resolved through local aliases
+    (`attrs = rule['attrs']; attrs['match'] = ...` is the same write)"""
+    from .flow import Provenance
+    tgt = wn.targets[0] if isinstance(wn, ast.Assign) and len(wn.targets) == 1 else None
+    if not (isinstance(tgt, ast.Subscript) and isinstance(tgt.slice, ast.Constant) and tgt.slice.value == "match"):
+        return False
+    base = tgt.value
+    if norm(base).replace('"', "'").endswith("['attrs']"):
+        return True
+    fn = repo.enclosing_func(wn)
+    if fn is None or not isinstance(base, ast.Name):
+        return False
+    try:
+        v = Provenance(fn).resolve_alias(base)
+    except Exception:
+        return False
+    return norm(v).replace('"', "'").endswith("['attrs']")
